@@ -36,13 +36,22 @@ def gen_world(rng, i, tier):
         w["file"] = ents
     n = rng.pick([3, 8, 15, 25, 40, 60])
     uni_s = [None] + rng.subset(SECS, 1, 5)
+    if rng.chance(0.06):
+        uni_s = [None] + ["m%02d" % k for k in range(rng.pick([9, 16, 17, 33]))]     # section list past its allocation steps
+        n = max(n, 40)
     uni_k = rng.subset(KEYS, 1, 5)
     uid = 0
+    have = set((e[0], e[1]) for e in w.get("file", []))
     for _ in range(n):
         r = rng.random()
         s = rng.pick(uni_s)
         k = rng.pick(uni_k)
+        if r < 0.04 and (s, k) in have:
+            # a value the boolean setter refuses, on a key that exists: error code, nothing changes
+            w["ops"].append(["set_badbool", spell(rng, s), k, rng.pick(["maybe", "2", "tru", "yes please", "on"])])
+            continue
         if r < 0.40:
+            have.add((s, k))
             ty = rng.pick(["String"] * 5 + ["Int", "Int64", "UInt", "UInt64", "Bool", "Float", "Double"])
             uid += 1
             if ty == "String":
@@ -88,6 +97,8 @@ def to_exec(a):
         return {"op": "getKeys", "k": 0, "group": a[1]}
     if o == "groups":
         return {"op": "getGroups", "k": 0}
+    if o == "set_badbool":
+        return {"op": "set", "k": 0, "type": "Bool", "group": a[1], "key": a[2], "v": a[3]}
     if o == "set_nokey":
         return {"op": "set", "k": 0, "type": "String", "group": a[1], "key": a[2], "v": "zz"}
     if o == "set_noobj":
@@ -228,6 +239,10 @@ def check(world, plans, results):
                     v.fail("groups", "%s: object without sections: got rc=%r %r" % (where, r["rc"], r.get("v")))
             elif r["rc"] != 0 or r.get("v") != m.secs:
                 v.fail("groups", "%s: expected %r, got rc=%r %r" % (where, m.secs, r["rc"], r.get("v")))
+        elif o == "set_badbool":
+            if r.get("rc", 1) == 0:
+                v.fail("refusal", "%s: a text that is no boolean was accepted by the boolean setter" % where)
+            flags["refused_on_existing"] = True
         else:
             if r.get("rc", 1) == 0:
                 v.fail("refusal", "%s: call without object / without key returned success" % where)
